@@ -16,10 +16,12 @@ package checker
 // environments is as they found it (assumed, like the hypothesis on checkExpression)
 func (*Checker).checkIsIterable
   trusted
+  ensures ctxKept(c, old(c.mode), old(c.selfType), old(c.Filename), old(c.compiler), old(c.constantScopes), old(c.methodScopes), old(c.phase))
   ensures envs: len(c.localEnvs) == old(len(c.localEnvs))
 
 func (*Checker).checkThrowType
   trusted
+  ensures ctxKept(c, old(c.mode), old(c.selfType), old(c.Filename), old(c.compiler), old(c.constantScopes), old(c.methodScopes), old(c.phase))
   ensures envs: len(c.localEnvs) == old(len(c.localEnvs))
 
 func (*Checker).checkModifierForInExpressionNode
